@@ -21,6 +21,20 @@ func Transpile(elkRegex string, flags bitfield.BitField8) (string, diagnostic.Di
 	}
 
 	t := &transpiler{Flags: flags}
+	// flags that Go understands natively are enabled for the whole pattern,
+	// the rest is handled by the transpiler
+	var goFlags strings.Builder
+	for _, fl := range flag.Flags {
+		if flags.HasFlag(fl) && flag.IsSupportedByGo(fl) {
+			goFlags.WriteRune(flag.ToChar(fl))
+		}
+	}
+	if goFlags.Len() > 0 {
+		t.Buffer.WriteString("(?")
+		t.Buffer.WriteString(goFlags.String())
+		t.Buffer.WriteRune(')')
+	}
+
 	t.transpileNode(ast)
 	if t.Errors != nil {
 		return "", t.Errors
